@@ -71,7 +71,7 @@ def qlit(fr):
 
 def zlit(z):
     z = int(z)
-    return '%d' % z if z >= 0 else '(%d)' % z
+    return '(%d)%%Z' % z
 
 
 def blit(b):
